@@ -152,6 +152,26 @@ def matrix_delay_case(opts):
     return txt, None
 
 
+def fixed_by_parameter_case(hold, opts):
+    """the `fixed` flag of an input written as a Boolean parameter; the options resolve it to its value before the check: the model
+    is accepted exactly if the parameter is true"""
+    from pymoca.backends.casadi.api import transfer_model
+    txt = ("model M parameter Boolean hold = %s; parameter Real p = 3.0; input Real uh(fixed = hold); Real x; Real y; "
+           "equation der(x) = -x + uh; y = delay(x, uh * p); end M;" % ("true" if hold else "false"))
+    with tempfile.TemporaryDirectory() as tmp:
+        with open(os.path.join(tmp, "M.mo"), "w") as f:
+            f.write(txt)
+        try:
+            transfer_model(tmp, "M", dict(opts))
+            verdict = "accepted"
+        except ValueError as e:
+            verdict = "rejected (%s)" % str(e)[:60]
+        except BaseException as e:  # noqa
+            verdict = "error %s: %s" % (type(e).__name__, str(e).replace("\n", " ")[:100])
+    want = "accepted" if hold else "rejected"
+    return txt, (None if verdict.startswith(want) else "with options %s: %s, expected %s (the duration depends on a parameter and an input whose fixed flag is the parameter hold = %s)" % (opts, verdict, want, hold))
+
+
 def hidden_symbol_case(opts):
     """a delayed loop expression over a[2:3] whose graph, after vector expansion, still mentions a[1]; alias detection then removes
     a[1] (= x[1]): the delay-argument function must still be buildable and give 3 * a[i] * eps"""
@@ -228,6 +248,15 @@ def main():
             txt, bad = "hidden symbol model", "%s: %s" % (type(e).__name__, str(e)[-200:])
         if bad:
             failures.append({"class": "delay", "input": txt, "observed": bad, "expected": "a delay-argument function over the symbols of the simplified model"})
+    for hold in (True, False):
+        for o in ({"replace_parameter_values": True}, {"resolve_parameter_values": True}):
+            n += 1
+            try:
+                txt, bad = fixed_by_parameter_case(hold, o)
+            except BaseException as e:  # noqa
+                txt, bad = "fixed-by-parameter model", "%s: %s" % (type(e).__name__, str(e)[-200:])
+            if bad:
+                failures.append({"class": "delay", "input": txt, "observed": bad, "expected": "accepted iff the input is fixed"})
     for durs, loop, opts in cases:
         n += 1
         txt, (verdict, info), m = run(durs, loop, opts)
